@@ -30,6 +30,8 @@ CONSTANTS
   PCfg,       \* sequence of port configs [p2p, mo, aml, keep]
               \*   aml : the set of acceptable clock identities; a set containing 0 (AnyId) accepts every identity
               \*   keep: announce interval of the port in BMCA steps (1 if all ports share one interval)
+  SeqMod,     \* modulus of sequence ids: 65536; the liveness model uses 1 to make the state space finite
+  Ghost,      \* keep the bookkeeping that only serves conformance (rng draw counts, issued timestamp contexts)
   DevDup,     \* deviation of the code kept by a test of the repository: an Announce repeating the last stored
               \*   sequenceId is stored again (FALSE: the intended design, distinct messages only)
   Fwd,        \* the host feeds ForwardTLV actions into the daemon's TlvForwarder
@@ -110,10 +112,11 @@ SetForced(s, p, new, remote) ==
       clk |-> IF repl THEN << <<p, "freq", 0>> >> ELSE <<>>,
       flt |-> IF repl THEN << [p |-> p, k |-> "new"], [p |-> p, k |-> "demob"] >> ELSE <<>>]
 
-Draw(s, p) == [s EXCEPT !.rngc[p] = @ + 1]
+Draw(s, p) == IF Ghost THEN [s EXCEPT !.rngc[p] = @ + 1] ELSE s
 
 \* ---------------------------------------------------------------- foreign master list (bmc/foreign_master.rs)
-SeqDiff(a, b) == (a + 65536 - b) % 65536
+SeqDiff(a, b) == (a + SeqMod - b) % SeqMod
+HalfSeq == IF SeqMod = 65536 THEN 32767 ELSE SeqMod      \* u16::MAX / 2
 FmIdx(f, id) == IF \E k \in 1..Len(f) : f[k].id = id THEN CHOOSE k \in 1..Len(f) : f[k].id = id ELSE 0
 Purge(l, cut) == SelectSeq(l, LAMBDA x : x.age < cut)
 
@@ -121,7 +124,7 @@ Purge(l, cut) == SelectSeq(l, LAMBDA x : x.age < cut)
 Register(f, own, cut, c, age) ==
   LET i == FmIdx(f, c.src) IN
   IF c.src[1] = own THEN f
-  ELSE IF i # 0 /\ Len(f[i].msgs) > 0 /\ SeqDiff(c.seq, f[i].msgs[Len(f[i].msgs)].c.seq) >= 32767 THEN f
+  ELSE IF i # 0 /\ Len(f[i].msgs) > 0 /\ SeqDiff(c.seq, f[i].msgs[Len(f[i].msgs)].c.seq) >= HalfSeq THEN f
   ELSE IF ~DevDup /\ age = 0 /\ i # 0 /\ Len(f[i].msgs) > 0 /\ SeqDiff(c.seq, f[i].msgs[Len(f[i].msgs)].c.seq) = 0 THEN f
   ELSE IF c.steps >= 255 THEN f
   ELSE IF i # 0 THEN
@@ -299,13 +302,13 @@ AnnounceTimer(s, p, useFwd) ==
         tlvs == (IF withPath THEN <<own>> ELSE <<>>) \o dr.tlvs
         fr == [a |-> "G", ll |-> FALSE, t |-> "Announce", seq |-> seq, src |-> <<Own, p>>, dom |-> 0, sdo |-> 0, ver |-> 2,
                gm |-> AttrRec(s.gm), steps |-> s.steps, tp |-> s.tp, tlvs |-> tlvs, selfdec |-> TRUE]
-    IN Res([s EXCEPT !.nseq[p].ann = (@ + 1) % 65536, !.fq[p] = dr.q], <<T("ann", "I"), fr>>)
+    IN Res([s EXCEPT !.nseq[p].ann = (@ + 1) % SeqMod, !.fq[p] = dr.q], <<T("ann", "I"), fr>>)
 
 SyncTimer(s, p) ==
   IF s.pst[p] # "M" THEN NoOp(s)
   ELSE LET seq == s.nseq[p].sync
            c == [k |-> "Sync", id |-> seq, req |-> NoPid]
-       IN Res([s EXCEPT !.nseq[p].sync = (@ + 1) % 65536, !.ctx[p] = Append(@, c)],
+       IN Res([s EXCEPT !.nseq[p].sync = (@ + 1) % SeqMod, !.ctx[p] = IF Ghost THEN Append(@, c) ELSE @],
               <<T("sync", "I"),
                 [a |-> "E", ll |-> FALSE, t |-> "Sync", seq |-> seq, src |-> <<Own, p>>, dom |-> 0, sdo |-> 0, ver |-> 2,
                  two |-> TRUE, ctx |-> Len(s.ctx[p]) + 1, selfdec |-> TRUE]>>)
@@ -314,7 +317,7 @@ DelayReqTimer(s, p) ==
   IF PCfg[p].p2p THEN
      LET id == s.nseq[p].pdreq
          c == [k |-> "PDelayReq", id |-> id, req |-> NoPid]
-     IN Res(Draw([s EXCEPT !.nseq[p].pdreq = (@ + 1) % 65536, !.ctx[p] = Append(@, c),
+     IN Res(Draw([s EXCEPT !.nseq[p].pdreq = (@ + 1) % SeqMod, !.ctx[p] = IF Ghost THEN Append(@, c) ELSE @,
                            !.pd[p] = [st |-> "M", id |-> id, r |-> NoPid, t1 |-> NoneV, t2 |-> NoneV, t3 |-> NoneV, t4 |-> NoneV]], p),
             <<T("dreq", "R"),
               [a |-> "E", ll |-> TRUE, t |-> "PdelayReq", seq |-> id, src |-> <<Own, p>>, dom |-> 0, sdo |-> 0, ver |-> 2,
@@ -323,7 +326,7 @@ DelayReqTimer(s, p) ==
   ELSE
      LET id == s.nseq[p].dreq
          c == [k |-> "DelayReq", id |-> id, req |-> NoPid]
-     IN Res(Draw([s EXCEPT !.nseq[p].dreq = (@ + 1) % 65536, !.ctx[p] = Append(@, c),
+     IN Res(Draw([s EXCEPT !.nseq[p].dreq = (@ + 1) % SeqMod, !.ctx[p] = IF Ghost THEN Append(@, c) ELSE @,
                            !.dl[p] = [st |-> "M", id |-> id, send |-> NoneV, recv |-> NoneV]], p),
             <<T("dreq", "R"),
               [a |-> "E", ll |-> FALSE, t |-> "DelayReq", seq |-> id, src |-> <<Own, p>>, dom |-> 0, sdo |-> 0, ver |-> 2,
@@ -429,7 +432,7 @@ HandleDelayReq(s, p, m) ==   \* m: [src, seq, c, rx, f0, minor]
 
 HandlePdelayReq(s, p, m) ==  \* m: [src, seq, c, rx]
   LET c == [k |-> "PDelayResp", id |-> m.seq, req |-> m.src]
-  IN Res([s EXCEPT !.ctx[p] = Append(@, c)],
+  IN Res([s EXCEPT !.ctx[p] = IF Ghost THEN Append(@, c) ELSE @],
          <<[a |-> "E", ll |-> TRUE, t |-> "PdelayResp", seq |-> m.seq, src |-> <<Own, p>>, dom |-> 0, sdo |-> 0, ver |-> 2,
             req |-> m.src, two |-> TRUE, ts |-> V(m.rx), ctx |-> Len(s.ctx[p]) + 1, selfdec |-> TRUE]>>)
 
